@@ -113,7 +113,7 @@ func typeOK(t *spec.Target, tt string) bool {
 // RunC20: query commands agree with the graph and predict rebuilds.
 func RunC20(tier string) int {
 	run := report.New("C20", tier, "exploration",
-		"seeded multi-package workspaces with aliases, alias chains, globs with excludes, test and bin targets: for every node `grog deps`/`rdeps` with and without -t and with every --target-type; `grog owners` for every source file spelled relative to different working directories; `grog list` with pattern sets and type filters; then one edited file followed by a build; "+
+		"seeded multi-package workspaces with aliases, alias chains, globs with excludes, test and bin targets: for every node `grog deps`/`rdeps` with and without -t and with every --target-type; `grog owners` for every source file spelled relative to different working directories; `grog list` with --tag/--exclude-tag filters (one to three tags) and pattern sets and type filters; then one edited file followed by a build; "+
 			"oracle: reference graph with aliases as nodes (exact sets, each label printed once, x in deps(y) <=> y in rdeps(x) on grog's own answers), owners = targets whose resolved inputs contain the file, executed set after the edit must be inside grog's own owners(f) + transitive rdeps; alias lines under a type filter are may-print; "+
 			"non-trivial = query with a non-empty expected answer; distinct = query kind + answer size + shape")
 	st, err := e1.Prepare(run, false)
@@ -309,12 +309,21 @@ func RunC20(tier string) int {
 			}
 		}
 		// list
-		for k := 0; k < 6; k++ {
+		for k := 0; k < 10; k++ {
 			q := genQuery(r, s)
 			tt := rng.Pick(r, types)
 			args := []string{"list"}
 			if tt != "all" {
 				args = append(args, "--target-type="+tt)
+			}
+			for _, tg := range q.Tags {
+				args = append(args, "--tag="+tg)
+			}
+			for _, tg := range q.ExcludeTags {
+				args = append(args, "--exclude-tag="+tg)
+			}
+			if len(q.Tags)+len(q.ExcludeTags) > 0 {
+				run.Count("list_queries_with_tag_filters", 1)
 			}
 			pats := q.Patterns
 			args = append(args, pats...)
@@ -336,7 +345,7 @@ func RunC20(tier string) int {
 						m = true
 					}
 				}
-				want := m && typeOK(t, tt)
+				want := m && typeOK(t, tt) && (len(q.Tags) == 0 || anyIn(q.Tags, t.Tags)) && !anyIn(q.ExcludeTags, t.Tags)
 				if want != got[t.Label()] {
 					kind := "list-missing-target"
 					if !want {
